@@ -142,27 +142,28 @@ def predict(res, tr):
             out[k] = v
             continue
         if t == 'swap':
+            kk = opt.get('swapname', k)
             if kind == 'inv':
-                out[k] = v
+                out[kk] = v
             elif kind == 'diff':
                 e, s, lo, hi = v
-                out[k] = (None if e is None else -e, s, None if hi is None else -hi, None if lo is None else -lo)
+                out[kk] = (None if e is None else -e, s, None if hi is None else -hi, None if lo is None else -lo)
             elif kind == 'ratio':
                 e, s, lo, hi = v
-                out[k] = (inv_or_none(e), s, inv_or_none(hi), inv_or_none(lo))
+                out[kk] = (inv_or_none(e), s, inv_or_none(hi), inv_or_none(lo))
             elif kind == 'prob':
                 out[k] = [None if x is None else 1.0 - x for x in v] if isinstance(v, list) else (None if v is None else 1.0 - v)
-            elif kind in ('mean', 'outc', 'unit', 'meanci'):
+            elif kind in ('mean', 'outc', 'unit', 'meanci', 'minv'):
                 if opt.get('swap'):
                     out[opt['swap']] = v
             elif kind == 'psi':
                 out[k] = [-x for x in v]
             elif kind == 'nnt':
                 e, s, lo, hi = v
-                out[k] = (None if e is None else -e, s, None if hi is None else -hi, None if lo is None else -lo)
+                out[kk] = (None if e is None else -e, s, None if hi is None else -hi, None if lo is None else -lo)
         elif t == 'scale':
             c, d = tr['c'], tr['d']
-            if kind in ('inv', 'prob'):
+            if kind in ('inv', 'prob', 'minv'):
                 out[k] = v
             elif kind == 'diff':
                 e, s, lo, hi = v
@@ -212,13 +213,21 @@ def apply_tr(df, tr, spec):
             d[col] = a * d[col] + b
     elif t == 'recode':
         col = spec['cat']
-        d[col] = d[col].map(lambda v: v if (isinstance(v, float) and v != v) else tr['map'][v if isinstance(v, str) else int(v)])
+        mp = mapdict(tr)
+        isfloat = d[col].dtype.kind == 'f'
+        d[col] = d[col].map(lambda v: v if (isinstance(v, float) and v != v) else mp[v if isinstance(v, str) else int(v)])
+        if isfloat:
+            d[col] = d[col].astype(float)
     elif t == 'swap':
         for col in spec['trt']:
             d[col] = 1 - d[col]
     elif t == 'scale':
         d[spec['out']] = tr['c'] * d[spec['out']] + tr['d']
     return d
+
+
+def mapdict(tr):
+    return {k: v for k, v in tr['map']}
 
 
 def draw_transforms(rng, df, spec, continuous, which=None):
@@ -244,7 +253,7 @@ def draw_transforms(rng, df, spec, continuous, which=None):
             codes = codes[::-1]
         if isinstance(levels[0], str):
             codes = ['z%d' % c for c in codes]
-        trs.append({'name': 'recode', 'map': dict(zip(levels, codes))})
+        trs.append({'name': 'recode', 'map': [list(x) for x in zip(levels, codes)]})
     if spec.get('trt'):
         trs.append({'name': 'swap'})
     if continuous and spec.get('out'):
@@ -321,7 +330,7 @@ def run_IPTW(df, cfg):
     n, rid = cfg['n'], ip.df['_rid_']
     res = {'iptw': ('inv', rows_by_rid(ip.iptw, rid, n), {}),
            'df.__denom__': ('prob', rows_by_rid(ip.df['__denom__'], rid, n), {}),
-           'df.__numer__': ('prob', rows_by_rid(ip.df['__numer__'], rid, n), {})}
+           'df.__numer__': ('prob' if cfg['stab'] else 'inv', rows_by_rid(ip.df['__numer__'], rid, n), {})}
     if ip.ipmw is not None:
         res['ipmw'] = ('inv', rows_by_rid(ip.ipmw, rid, n), {})
     if cfg['continuous']:
@@ -403,8 +412,8 @@ def run_TMLE(df, cfg):
            'QA1W': ('unit', rows_by_rid(t.QA1W, rid, n), {'swap': 'QA0W'}),
            'QA0W': ('unit', rows_by_rid(t.QA0W, rid, n), {'swap': 'QA1W'})}
     if cfg.get('mm'):
-        res['m1W'] = ('unit', rows_by_rid(t.m1W, rid, n), {'swap': 'm0W'})
-        res['m0W'] = ('unit', rows_by_rid(t.m0W, rid, n), {'swap': 'm1W'})
+        res['m1W'] = ('minv', rows_by_rid(t.m1W, rid, n), {'swap': 'm0W'})
+        res['m0W'] = ('minv', rows_by_rid(t.m0W, rid, n), {'swap': 'm1W'})
     if cfg['continuous']:
         res['average_treatment_effect'] = ('diff', quad(t.average_treatment_effect, t.average_treatment_effect_se, *ci(t.average_treatment_effect_ci)), {})
     else:
@@ -516,29 +525,29 @@ def run_measure(cls):
                 continue
             row = tab.loc[lab]
             partner = cfg.get('partner', {}).get(name)
+            sw = (lambda c: {'swapname': 'results[%s].%s' % (partner, c)}) if partner is not None else (lambda c: {})
 
             def g(c):
                 v = row[c] if c in tab.columns else None
                 return None if v is None else fnum(v)
             for est, (sd, lo, hi) in OWNCOLS.items():
                 if est in tab.columns:
-                    res['results[%s].%s' % (name, est)] = ('meanci', quad(g(est), g(sd), g(lo), g(hi)),
-                                                          {'swap': 'results[%s].%s' % (partner, est) if partner is not None else None})
+                    res['results[%s].%s' % (name, est)] = ('inv', quad(g(est), g(sd), g(lo), g(hi)), {})
             if lab.startswith('Ref:'):
                 continue
             for est, (sd, lo, hi) in DIFFCOLS.items():
                 if est in tab.columns:
-                    res['results[%s].%s' % (name, est)] = ('diff', quad(g(est), g(sd), g(lo), g(hi)), {})
+                    res['results[%s].%s' % (name, est)] = ('diff', quad(g(est), g(sd), g(lo), g(hi)), sw(est))
             for est, (sd, lo, hi) in RATIOCOLS.items():
                 if est in tab.columns:
-                    res['results[%s].%s' % (name, est)] = ('ratio', quad(g(est), g(sd), g(lo), g(hi)), {})
+                    res['results[%s].%s' % (name, est)] = ('ratio', quad(g(est), g(sd), g(lo), g(hi)), sw(est))
             if 'NNT' in tab.columns:
-                res['results[%s].NNT' % name] = ('nnt', quad(g('NNT'), g('SD(RD)'), g('NNT_LCL'), g('NNT_UCL')), {})
+                res['results[%s].NNT' % name] = ('nnt', quad(g('NNT'), g('SD(RD)'), g('NNT_LCL'), g('NNT_UCL')), sw('NNT'))
             if 'LowerBound' in tab.columns:
-                res['results[%s].bounds' % name] = ('diff', (None, None, g('LowerBound'), g('UpperBound')), {})
+                res['results[%s].bounds' % name] = ('diff', (None, None, g('LowerBound'), g('UpperBound')), sw('bounds'))
             for c in ('CLR', 'CLD'):
                 if c in tab.columns:
-                    res['results[%s].%s' % (name, c)] = ('inv', g(c), {})
+                    res['results[%s].%s' % (name, c)] = ('inv', g(c), sw(c))
         return res
     return run
 
@@ -569,8 +578,10 @@ def cfg_for(cls, cfg, tr):
         if cls in MEASURES:
             c['levels'] = {name: 1 - v for name, v in c['levels'].items()}
     if t == 'recode' and cls in MEASURES:
-        c['levels'] = {name: tr['map'][v] for name, v in c['levels'].items()}
-        c['ref'] = tr['map'][c['ref']]
+        mp = mapdict(tr)
+        rc = (lambda v: mp[v]) if isinstance(c['ref'], str) else (lambda v: float(mp[int(v)]))
+        c['levels'] = {name: rc(v) for name, v in c['levels'].items()}
+        c['ref'] = rc(c['ref'])
     return c
 
 
@@ -727,8 +738,12 @@ def gen_measure(rng, cls):
     rng.shuffle(rows)
     df = pd.DataFrame(rows, columns=['e', 'y', 't'])
     df['_rid_'] = np.arange(len(df))
-    ref = 0 if binary else rng.choice(codes)
-    cfg = {'n': len(df), 'ref': ref, 'alpha': rng.choice([0.05, 0.1, 0.2]), 'levels': {str(c): c for c in codes}}
+    strings = (not binary) and rng.random() < 0.3        # exposure levels given as strings
+    enc = (lambda c: 'lv%d' % c) if strings else float
+    if strings:
+        df['e'] = pd.Series([v if v != v else 'lv%d' % int(v) for v in df['e']], dtype=object)
+    ref = 0.0 if binary else enc(rng.choice(codes))
+    cfg = {'n': len(df), 'ref': ref, 'alpha': rng.choice([0.05, 0.1, 0.2]), 'levels': {str(c): enc(c) for c in codes}}
     if binary:
         cfg['partner'] = {'0': '1', '1': '0'}
     spec = {'cont': None, 'cat': 'e', 'trt': ['e'] if binary else None, 'out': None}
@@ -853,7 +868,10 @@ def sat_runs(df, meta):
     a.fit()
     o['aipw'] = (float(a.average_treatment_effect if cont else a.risk_difference),
                  float(a.average_treatment_effect_se if cont else a.risk_difference_se) ** 2)
-    t = TMLE(df, 'A', 'Y')
+    # continuous_bound (default 0.0005) deliberately moves the extreme outcomes inwards before anything is fitted; the Coq
+    # rows carry the outcomes as recorded, so (as in C01 / C06) the bound is set to a value nothing reaches.  The
+    # metamorphic part above runs TMLE with its default bound.
+    t = TMLE(df, 'A', 'Y', continuous_bound=1e-10)
     t.exposure_model(satL, print_results=False)
     t.outcome_model(satAL, print_results=False)
     t.fit()
@@ -916,8 +934,8 @@ def coq_part(ctx, fails, table, cases=None):
         cq, dq = qlit(Fraction(cs['c'])), qlit(Fraction(cs['d']))
         parts = []
         for rows in (rows_init, rows_targ):
-            parts.append('(let l := %s in (Qflat (est_out false TAll (1#2) 1 1 l), Qflat (est_out false TAll (1#2) 1 1 (permute row0 %s l)), '
-                         'Qflat (est_out false TAll (1#2) 1 1 (map swap_row l)), Qflat (est_out false TAll (1#2) 1 1 (map (scale_row %s %s) l))))'
+            parts.append('(let l := %s in [Qflat (est_out false TAll (1#2) 1 1 l); Qflat (est_out false TAll (1#2) 1 1 (permute row0 %s l)); '
+                         'Qflat (est_out false TAll (1#2) 1 1 (map swap_row l)); Qflat (est_out false TAll (1#2) 1 1 (map (scale_row %s %s) l))])'
                          % (rows, pos, cq, dq))
         exprs.append('(%s, %s)' % tuple(parts))
         work.append((cs, meta, runs, pay, n, cont))
